@@ -62,6 +62,7 @@ RULE_GARBAGE = [
 PAGE_GARBAGE = [
     # (a valid margin box whose only declaration is invalid stays as an empty box: that is containment, so only the box itself is damaged here)
     ('@top-left {m} ! {{content:"x"}}', 'bad-margin-box-prelude'), ('@top-right {m}( {{content:"x"}} ) {{y:1}}', 'bad-margin-box-prelude'),
+    ('{m} {{ @bottom-center {{ content: "{m}" }} }}', 'margin-box-inside-garbage-block'),
 ]  # fmt: skip
 AT_GARBAGE = [
     ('@{m};', 'unknown'), ('@{m} a b;', 'unknown'), ('@{m} {{a{{b:c}}}}', 'unknown-block'), ('@{m} a(b;c) [d] {{e}}', 'unknown-nesting'),
@@ -69,6 +70,11 @@ AT_GARBAGE = [
     ('@namespace {m} "urn:{m}";', 'misplaced-namespace'), ('@{m} {{ @{m} {{ }} }}', 'unknown-nested'), ('@media {m} $ {{a{{b:c}}}}', 'bad-media-query'),
     ('@page :{m}{m} ! {{margin:0}}', 'bad-page-selector'), ('@font-face {m} {{x:1}}', 'bad-font-face-prelude'), ('@top-left {{content:"{m}"}}', 'margin-box-outside-page'),
     ('@import;', 'import-without-target'), ('@namespace;', 'namespace-without-uri'),
+    # the cssutils-specific named @media: anything between the name and the block is an error
+    ('@media tv "n{m}" {m} {{a{{b:c}}}}', 'junk-after-media-name'), ('@media tv "n{m}" "x" {{a{{b:c}}}}', 'junk-after-media-name'), ('@media tv "n{m}" [x;y] (z) {{a{{b:c}}}}', 'junk-after-media-name'),
+    ('@media "n{m}" tv {{a{{b:c}}}}', 'junk-after-media-name'), ('@media tv, "n{m}" {{a{{b:c}}}}', 'bad-media-query'), ('@media tv and {{a{{{m}:c}}}}', 'bad-media-query'),
+    ('@media (min-width:) {{a{{{m}:c}}}}', 'bad-media-query'), ('@media tv (color) {{a{{{m}:c}}}}', 'bad-media-query'), ('@font-face "{m}" {{x:1}}', 'bad-font-face-prelude'),
+    ('@page "{m}" {{margin:0}}', 'bad-page-selector'), ('@page a b{m} {{margin:0}}', 'bad-page-selector'), ('@page :first :{m} {{margin:0}}', 'bad-page-selector'),
 ]  # fmt: skip
 
 
@@ -149,6 +155,10 @@ def inject(rng, stmts, marker):
                     blocks.append((st, 1, path + 'fontface'))
                 elif st[0] == 'page':
                     blocks.append((st, 3, path + 'page'))
+                    # the declaration blocks of its margin boxes
+                    st[4] = [[b, list(bi)] for b, bi in st[4]]
+                    for box in st[4]:
+                        blocks.append((box, 1, path + 'page>margin-box'))
                 elif st[0] == 'media':
                     collect(st[2], path + 'media>')
 
@@ -161,6 +171,8 @@ def inject(rng, stmts, marker):
         tmpl, tag = rng.choice(DECL_GARBAGE)
         if st[0] == 'page' and rng.random() < 0.5:
             tmpl, tag = rng.choice(PAGE_GARBAGE)
+        elif where.endswith('margin-box') and rng.random() < 0.3:
+            tmpl, tag = PAGE_GARBAGE[-1]
         items = list(st[idx])
         pos = rng.randint(0, len(items))
         follows = items[pos][0] if pos < len(items) else 'end'
